@@ -8,6 +8,8 @@ package c15
 import (
 	"fmt"
 	"math/big"
+	"os"
+	"time"
 	"strings"
 	"sync"
 	"sync/atomic"
@@ -167,6 +169,12 @@ func (m *monitor) judgeShape(e engine, bs []batch, control bool) {
 		return
 	}
 	r := m.r
+	if os.Getenv("VERIF_C15_TIMING") != "" {
+		t0 := time.Now()
+		defer func() {
+			fmt.Printf("timing: %-14s %-40s batches=%d slots=%d %.2fs\n", e, bs[0].class(0), len(bs), bs[0].slots(), time.Since(t0).Seconds())
+		}()
+	}
 	run, ccs, err := e.prepare(bs[0].shape())
 	if err != nil {
 		if bs[0].slots() > 1 {
@@ -224,7 +232,15 @@ func (m *monitor) judgeShape(e engine, bs []batch, control bool) {
 			// the assertion must be live: a digest differing in one bit is refused
 			s := int(tag % uint64(b.slots()))
 			ctag := nextTag()
-			cerr := run(b.assign(ctag, s))
+			var cerr error
+			if e.name == "engine" && b.slots() > 1 {
+				// the test engine re-executes everything: run the control on that job alone
+				sb := b.single(s)
+				srun, _, _ := e.prepare(sb.shape())
+				cerr = srun(sb.assign(ctag, 0))
+			} else {
+				cerr = run(b.assign(ctag, s))
+			}
 			for k := 0; k < b.slots(); k++ {
 				takeTap(ctag, k)
 			}
